@@ -167,7 +167,7 @@ func DrawFlags(t *rapid.T, h Hints) Flags {
 		f.PathStructs = true
 		f.PathSplitFiles = 1
 		f.NoWildcardPaths = bit("nowildcard", 15)
-		f.SimplifyWildcardPaths = !f.NoWildcardPaths && bit("simplifywildcard", 25)
+		f.SimplifyWildcardPaths = bit("simplifywildcard", 25)
 		if bit("builder", 25) {
 			f.ListBuilderKeyThreshold = rapid.IntRange(1, 3).Draw(t, "flag-builder-threshold")
 		}
